@@ -69,6 +69,33 @@ Theorem C02_kc_exact : forall p m s xs, kc_new XROps p (Fin m) = Ok s ->
   kc_outs XROps s (map Fin xs) = map (map Fin) (kc_real (kreal p) m xs).
 Proof. exact kc_exact. Qed.
 
+(* ... and the bar paths: TrueRange of bars max(high - low, |high - prev close|, |low - prev close|) (high - low on the first bar),
+   ATR and KeltnerChannel fed bars, and ChandelierExit exactly: long = greatest high of the window - multiplier * ATR,
+   short = least low of the window + multiplier * ATR — for every stream of bars with finite prices, every multiplier *)
+From Coq Require Import List.
+From TA Require Import Proofs.Ring Proofs.XBands Proofs.XCe.
+Theorem C02_tr_bar_exact : forall bars pc,
+  tr_bar_outs XROps (mkTr (option_map Fin pc)) (map mkb bars) = map Fin (trb_stream pc bars).
+Proof. exact tr_bar_exact. Qed.
+Theorem C02_trb_definition : forall h l c c0,
+  trb None (h, l, c) = (h - l)%R /\ trb (Some c0) (h, l, c) = Rmax (Rmax (h - l) (Rabs (h - c0))) (Rabs (l - c0)).
+Proof. intros. split; reflexivity. Qed.
+Theorem C02_atr_bar_exact : forall p a bars, atr_new XROps p = Ok a ->
+  atr_bar_outs XROps a (map mkb bars) = map Fin (ema_stream (kreal p) (trb_stream None bars)).
+Proof. exact atr_bar_exact. Qed.
+Theorem C02_kc_bar_exact : forall p m s bars, kc_new XROps p (Fin m) = Ok s ->
+  kc_bar_outs XROps s (map mkb bars) = map (map Fin) (kc_bar_real (kreal p) m bars).
+Proof. exact kc_bar_exact. Qed.
+Theorem C02_ce_exact : forall p mu c bars, ce_new XROps p (Fin mu) = Ok c ->
+  let highs := map (fun b : rbar => fst (fst b)) bars in
+  let lows := map (fun b : rbar => snd (fst b)) bars in
+  let atrs := ema_stream (kreal p) (trb_stream None bars) in
+  forall k, (k < length bars)%nat ->
+    exists mx mn, nth k (ce_outs XROps c (map mkb bars)) nil = (Fin (mx - nth k atrs 0 * mu) :: Fin (mn + nth k atrs 0 * mu) :: nil)%R /\
+      In mx (lastn (N.to_nat p) (firstn (S k) highs)) /\ (forall y, In y (lastn (N.to_nat p) (firstn (S k) highs)) -> (y <= mx)%R) /\
+      In mn (lastn (N.to_nat p) (firstn (S k) lows)) /\ (forall y, In y (lastn (N.to_nat p) (firstn (S k) lows)) -> (mn <= y)%R).
+Proof. exact ce_exact. Qed.
+
 (* ---- the rounding component, PROVED for ExponentialMovingAverage on binary64 (Flocq): for every period below 2^53 and every
         stream of up to 2^45 finite inputs with magnitudes bounded by M (2^-960 <= M <= 2^990), every output is finite and
         within tau(t)*M of the real recursion with alpha = 2/(n+1) — the rounding of the smoothing factor included ---- *)
